@@ -1804,3 +1804,9 @@ LEVEL_NOTE = ('Partial for number formatting: pint\'s `units(str(q)) == q` is an
               'bare_unit_nan_prefix_roundtrips, nan_reciprocal_unit_roundtrips. Trusted: Lean kernel, the hand-written model as far '
               'as the differential runs sample it, extract_tables.py.')
 TECHNIQUE = 'Lean 4 proof by structural induction over value trees + model/code correspondence (differential)'
+
+
+# a user-defined serializer registered under a main key and an alternate key
+from harness import customser as _cs                    # noqa: E402
+from harness.mixins import add_family as _add_family    # noqa: E402
+_add_family(globals(), _cs, 'customser', _cs.oracle, share=0.01)
